@@ -17,6 +17,9 @@ def all_harnesses():
     hs = []
     for t in ("u8", "u32", "i32", "f32", "complex"):
         hs.append(Harness(f"c14_rt_{t}", f"crate::c14::rt_{t}()", unwind=12, unit=f"Sample for {t}", shape={"type": t}, core=True))
+    for nd in (0, 2, 4):
+        hs.append(Harness(f"c14_audecode_stream_{nd}", f"crate::c14::au_decode_stream({nd})", unwind=44, unit="AuDecode::work (whole stream)",
+                          shape={"header": 28, "data_bytes": nd}, core=(nd == 2), timeout=1500))
     import itertools
     TSTUB = [("<std::net::TcpStream as std::io::Read>::read", "crate::c14::tcp_read_stub")]
     for cap in (1, 2):
